@@ -83,7 +83,7 @@ def gc_rules(ctx, w, S, R, rule_prefix="D2"):
     return T
 
 
-def run(ctx, w):
+def _run(ctx, w):
     S = shared.screen(w)
     R = shared.roles(w)
     E = w.E
@@ -333,3 +333,11 @@ def unwrapper_rules(ctx, w, rule="D3u"):
                 (some_blocks if s["rv"]["variant"] == "Some" else none_blocks).append(bb)
     ok = some_blocks and none_blocks and all(b.edge_controls((bl, f_edge), x) for x in some_blocks) and all(b.edge_controls((bl, t_edge), x) for x in none_blocks)
     ctx.check(ok, rule, fn + ":result", "%s must return Some(line) exactly when the row is not soft-wrapped and None when it is" % fn, loc=w.fn_loc(fn), sample={"some": len(some_blocks), "none": len(none_blocks)})
+
+
+def run(ctx, w):
+    _run(ctx, w)
+    # which mode numbers switch screens (47 / 1047 / 1049) and which finals scroll is part of the statement: the control
+    # functions must be decoded as specified
+    from rules import c03
+    shared.embed(ctx, w, c03.dispatch_rules)
